@@ -423,6 +423,23 @@ class RefAt(Sym):
         self.k = k
 
 
+class ChainedLookup(Lookup):
+    """ChainedTransforms of three abstract sequences (class invariant: an element of one item is never a head of an
+    element of another -- the abstract parents raise ValueError for foreign chains)."""
+    cls = 'ChainedTransforms'
+    bounded = 'three chained sequences (symbolic lengths)'
+
+    def make(self, cx, S):
+        ps = [Parent(cx, 'item%d' % k) for k in range(3)]
+        n = ps[0].n + ps[1].n + ps[2].n
+        offs = [z3.IntVal(0), ps[0].n, ps[0].n + ps[1].n, n]
+        off = Vec('int', z3.IntVal(4), lambda i: z3.If(i == 0, offs[0], z3.If(i == 1, offs[1], z3.If(i == 2, offs[2], offs[3]))), 'offsets')
+        S.parents = ps
+        o = SObj('ChainedTransforms', attrs=dict(_items=tuple(ps), _offsets=off, todims=ps[0].attrs['todims'], fromdims=ps[0].attrs['fromdims']))
+        o.length = lambda ctx: SInt(n)
+        return o, n
+
+
 class AxisInverse(Contract):
     """Axis.unmap(Axis.map(ielem)) == ielem  and  Axis.map(Axis.unmap(index)) == index (mod)."""
     prop = PROP
@@ -471,7 +488,7 @@ def contracts():
     cs = []
     for t in (0, 2):
         cs += [IndexLookup(t), MaskedLookup(t), ReorderedLookup(t), UniformDerivedLookup(t), DerivedLookup(t)]
-    cs += [IndexLookupNegative(), IndexLookupForeign(), MaskedForeign(), AxisInverse('unmap-after-map'), AxisInverse('map-after-unmap')]
+    cs += [ChainedLookup(0), ChainedLookup(2), IndexLookupNegative(), IndexLookupForeign(), MaskedForeign(), AxisInverse('unmap-after-map'), AxisInverse('map-after-unmap')]
     return cs
 
 
